@@ -58,7 +58,7 @@ func c15Derive(c *Ctx) {
 	for _, t := range []int64{0, 1, 3} {
 		for _, p := range []int64{0, 1, 2, 3, 4, 16, 255} {
 			for _, m := range mems {
-				w := &pathWalker{env: newEnv(), maxSteps: 2000}
+				w := &pathWalker{env: newEnv(), maxSteps: 2000, opaque: map[string]bool{"initHash": true, "initBlocks": true, "processBlocks": true, "extractKey": true}}
 				w.env.bind(timeP, t)
 				w.env.bind(memP, m)
 				w.env.bind(thrP, p)
